@@ -654,7 +654,14 @@ func c11Plumbing(p *Prog, r *Report, rule string) {
 	root := p.Pkg(".")
 	// (1) fs_db.tx methods
 	n := 0
-	for _, k := range p.methodsOf(".", "tx") {
+	// (the handle's Store methods, whatever the unexported type that carries them is called: tx, scopedStore)
+	var handleMethods []string
+	for _, k := range sortedFuncKeys(p) {
+		if c := p.Funcs[k]; c.Pkg == root && c.Decl != nil && c.Decl.Recv != nil && c.Decl.Body != nil && !ast.IsExported(recvDeclTypeName(c.Decl)) {
+			handleMethods = append(handleMethods, k)
+		}
+	}
+	for _, k := range handleMethods {
 		fi := p.Funcs[k]
 		info := fi.Pkg.TypesInfo
 		if len(fi.Decl.Type.Params.List) == 0 {
@@ -1490,4 +1497,33 @@ func c11VerdictByFlag(p *Prog, f *Flat, fi *FuncInfo, site callSite, sw []int) (
 		}
 	}
 	return gated, returned && any, true
+}
+
+// recvTypeName: the name of the receiver's type (without pointer and type parameters).
+func recvDeclTypeName(d *ast.FuncDecl) string {
+	if d.Recv == nil || len(d.Recv.List) != 1 {
+		return ""
+	}
+	t := d.Recv.List[0].Type
+	for {
+		switch x := t.(type) {
+		case *ast.StarExpr:
+			t = x.X
+			continue
+		case *ast.IndexExpr:
+			t = x.X
+			continue
+		case *ast.IndexListExpr:
+			t = x.X
+			continue
+		case *ast.ParenExpr:
+			t = x.X
+			continue
+		}
+		break
+	}
+	if id, ok := t.(*ast.Ident); ok {
+		return id.Name
+	}
+	return ""
 }
